@@ -39,6 +39,11 @@ type Knobs struct {
 	ShardCount       int `json:"shard_count"`
 	FlushQueueSize   int `json:"flush_queue_size"`
 	StorageLatencyUs int `json:"storage_latency_us"`
+	// ExecLatencyMs: how long one execution's aggregation takes (DuckDB over
+	// the source files), in simulated time; every execution draws its own
+	// value in [1/2, 3/2] of it. 0: an execution takes no simulated time
+	// beyond the scheduler's step increments.
+	ExecLatencyMs int `json:"exec_latency_ms,omitempty"`
 }
 
 // faultBackend wraps the real LocalBackend that the ArrowBuffer flushes to:
@@ -95,6 +100,22 @@ type execTrace struct {
 type logCapture struct {
 	byTask map[int]string
 	tr     map[string]*execTrace
+	// execLatencyMs > 0: the task that logs "Executing ... continuous query"
+	// (window selected, aggregation about to start) is held for the run's
+	// aggregation latency before it goes on. DuckDB itself is a real,
+	// uninstrumented engine that takes no simulated time, so this is where a
+	// slow aggregation is modelled: after the window was chosen and while
+	// the execution is in flight, which is all the property can see of it.
+	execLatencyMs int
+}
+
+func (c *logCapture) aggregationLatency() {
+	if c.execLatencyMs <= 0 {
+		return
+	}
+	us := int64(c.execLatencyMs) * 1000
+	d := us/2 + simrt.Stream("exec-latency").Int63n(us+1)
+	simrt.Sleep(time.Duration(d) * time.Microsecond)
 }
 
 func (c *logCapture) Write(b []byte) (int, error) {
@@ -107,6 +128,7 @@ func (c *logCapture) Write(b []byte) (int, error) {
 	var m struct {
 		Message string `json:"message"`
 		ExecID  string `json:"execution_id"`
+		DryRun  bool   `json:"dry_run"`
 	}
 	if json.Unmarshal(b, &m) != nil {
 		return len(b), nil
@@ -120,6 +142,9 @@ func (c *logCapture) Write(b []byte) (int, error) {
 		if m.ExecID != "" {
 			c.byTask[t.ID()] = m.ExecID
 			c.tr[m.ExecID] = &execTrace{selectNs: simrt.SimNow()}
+		}
+		if !m.DryRun { // a dry run returns the query text without running it
+			c.aggregationLatency()
 		}
 	case "Scheduled continuous query completed", "Continuous query completed",
 		"Scheduled continuous query execution failed", "Continuous query execution failed":
@@ -158,7 +183,7 @@ type node struct {
 func newNode(root string, k Knobs) *node {
 	n := &node{root: root, knobs: k, dataDir: filepath.Join(root, "data")}
 	n.sn = simrt.NodeOf("n1")
-	n.logs = &logCapture{byTask: map[int]string{}, tr: map[string]*execTrace{}}
+	n.logs = &logCapture{byTask: map[int]string{}, tr: map[string]*execTrace{}, execLatencyMs: k.ExecLatencyMs}
 	n.icfg = &config.IngestConfig{
 		MaxBufferSize: k.MaxBufferSize, MaxBufferAgeMS: k.MaxBufferAgeMS, Compression: "snappy",
 		WriteStatistics: true, DataPageVersion: "2.0", FlushWorkers: k.FlushWorkers, FlushQueueSize: k.FlushQueueSize,
